@@ -622,8 +622,11 @@ class RecordContextMatcher:
                 comp = AST_COMPARATORS[comptype]
 
                 # Special case for __contains__, where we need to first unwrap all values matching the Type query
-                if comptype in (ast.In, ast.NotIn) and isinstance(left, TypeMatcherInstance):
+                if comptype is ast.In and isinstance(left, TypeMatcherInstance):
                     result = any(comp(v, right) for v in left._values())
+                elif comptype is ast.NotIn and isinstance(left, TypeMatcherInstance):
+                    # ``a not in b`` is the negation of ``a in b``: none of the values may be in ``right``
+                    result = all(comp(v, right) for v in left._values())
                 else:
                     result = comp(left, right)
 
